@@ -352,6 +352,21 @@ Proof.
   exact (lookup_never_fails cfg _ k _ c e F I H).
 Qed.
 
+(* the fix is in (T1): no premise left *)
+Lemma gen_strip_miss : strip_failure_is_miss = true. Proof. reflexivity. Qed.
+
+Lemma never_stale_unconditional cfg evs st os k op now delay u st' r :
+  cfg_ok cfg ->
+  run cfg state_init evs = Ok (st, os) ->
+  step cfg st (EQuery k op now delay u) = Ok (st', OServed r) ->
+  exists k0 t0 u0,
+    logged evs os (k0, t0, u0) /\ same_question k0 k /\ derives u0 r /\
+    fresh_by_class cfg (now - t0) u0 r.
+Proof.
+  intros C R S. apply (never_stale cfg evs st os k op now delay u st' r C R); [|exact S].
+  exact (lookup_failed_only_before_fix cfg evs st os k gen_strip_miss R).
+Qed.
+
 (* witness: an answer to a DO request with one unparsable record, valid for
    60 s; a request without DO a million seconds later gets MessageParseError
    from the cache, upstream is not asked *)
